@@ -31,15 +31,15 @@ type Outcome struct {
 // Cluster is the leader side of W1: the simulated replicated log plus the
 // current leader's FSM and server shell.
 type Cluster struct {
-	Run   *simkit.Run
-	GCTTL time.Duration
+	Run    *simkit.Run
+	GCTTL  time.Duration
 	GCGran time.Duration
 
-	L     *Replica
-	Shell *consul.Server
-	Log   []Entry
+	L       *Replica
+	Shell   *consul.Server
+	Log     []Entry
 	Results map[uint64]string // leader's canonical result per index
-	next  uint64
+	next    uint64
 
 	// last completed snapshot
 	SnapBytes []byte
@@ -51,14 +51,14 @@ type Cluster struct {
 	// Fatal is set when the system under test panicked inside apply.
 	Fatal error
 
-	mu       sync.Mutex
-	inMain   bool
-	curFault string
-	curGap   int
-	curDesc  string
-	curOut   *Outcome
-	pending  []*pendingProposal
-	Leaders  int
+	mu        sync.Mutex
+	inMain    bool
+	curFault  string
+	curGap    int
+	curDesc   string
+	curOut    *Outcome
+	pending   []*pendingProposal
+	Leaders   int
 	lostReply bool
 	StreamPub *stream.EventPublisher
 	Failovers int
